@@ -349,7 +349,14 @@ class BackendProvider(ABC):
         interpreted evaluation cannot disagree on them.
         """
         from ..dyads import eval_dyad_power
+
+        def nonempty(a):
+            if len(a) == 0:
+                raise ValueError("Over of an empty list is left to the interpreter")
+            return a
+
         return {
+            '_kg_nonempty': nonempty,
             '_kg_power': lambda a, b: eval_dyad_power(a, b, self),
         }
 
